@@ -17,10 +17,10 @@ type GBRef struct {
 
 // Qualifier kinds.
 const (
-	QualText = iota // /key="text"
-	QualNumber      // /key=1
-	QualFlag        // /key
-	QualTranslation // /translation="LETTERS", hard-wrapped
+	QualText        = iota // /key="text"
+	QualNumber             // /key=1
+	QualFlag               // /key
+	QualTranslation        // /translation="LETTERS", hard-wrapped
 )
 
 // GBQual is one feature qualifier.
@@ -49,7 +49,7 @@ type GBRecord struct {
 	Date     string
 
 	Definition, Accession, Version, Keywords, Source, OrgName string
-	Lineage                                                    []string // taxonomy lines under ORGANISM
+	Lineage                                                   []string // taxonomy lines under ORGANISM
 
 	Refs     []GBRef
 	Extras   []GBExtra
